@@ -1,1 +1,4 @@
 import GtirbProofs.Props.C15
+import GtirbProofs.Props.C07
+import GtirbProofs.Props.C08
+import GtirbProofs.Tables
